@@ -273,6 +273,7 @@ theorem lvA_step (L : Leaves K) (tbl : List IfaceRow) (a : ABus) (ev : AEv) : K 
     | timeout => exact lv_step L tbl a.core _
     | expire due => exact lv_step L tbl a.core _
     | stall c on => exact lv_step L tbl a.core _
+    | reload p => exact lv_step L tbl a.core _
   | childExited k err =>
     cases err with
     | none => exact L.refl _
